@@ -32,9 +32,10 @@ ALPHA = [
     ('thd-data tid3 pid99 by 2', lambda ts: [R('PERF_THD_Data', 0, (99, 3, 0, 0), tid=2, ts=ts)]),
     ('wait@2', lambda ts: [R('MACH_WAIT', 0, (0x10, 0, 0, 0), tid=2, ts=ts)]),
     ('exec-data pid 20 by 3', lambda ts: [R('TRACE_DATA_EXEC', 0, (20, 0, 0, 0), tid=3, ts=ts)]),
-    ('exec-string by 3', lambda ts: [R('TRACE_STRING_EXEC', 0, tid=3, ts=ts, data=b'execd'.ljust(32, b'\0'))]),
+    ('exec-string by 3', lambda ts: [R('TRACE_STRING_EXEC', 0, tid=3, ts=ts, data=b'e' * 32)]),
 ]
-MAPS = [[], [(1, 10, 'A')], [(1, 10, 'A'), (2, 20, 'B')], [(1, 2, 'A'), (2, 1, 'B'), (3, 3, 'C')]]   # last: tids collide with pids
+MAPS = [[], [(1, 10, 'A')], [(1, 10, 'A'), (2, 20, 'B')], [(1, 2, 'A'), (2, 1, 'B'), (3, 3, 'C')],   # tids collide with pids
+        [(1, 0xffffffff, 'M'), (2, 0x80000000, 'N')]]   # pids with the top bit set
 _TC = None
 
 
@@ -146,7 +147,7 @@ def model(m, seq):
         elif nm.startswith('exec-string'):
             old = (dict(tp), dict(pn))
             if 3 in last_exec:
-                pn[last_exec[3]] = 'execd'
+                pn[last_exec[3]] = 'e' * 32
             out.append((3, [old, (dict(tp), dict(pn))]))
     return out
 
@@ -161,12 +162,12 @@ def judge_process(m, seq):
     if len(got) != len(mod):
         return ('trace-line-count', {'got': len(got), 'expected': len(mod)})
     for g, (tid, states) in zip(got, mod):
-        col = g[:34].rstrip()
         cands = [fmt_proc(tid, tp, pn) for tp, pn in states]
-        if col not in cands:
+        # the column is the process text left-justified to 34 (a longer text is not cut)
+        if not any(g.startswith(f'{c:<34}') for c in cands):
+            if any(g.startswith(c) for c in cands):
+                return ('process-column-width', {'line': g})
             return ('process-column-not-the-declared-process', {'line': g, 'allowed': cands})
-        if len(g) < 34 or g[:34] != f'{col:<34}':
-            return ('process-column-width', {'line': g})
     # event listing (no decoding): static thread-map attribution
     tp = {t: p for t, p, _ in MAPS[m]}
     pn = {p: nm for _, p, nm in MAPS[m]}
@@ -245,7 +246,7 @@ class C14(Check):
     level = 'model_checking'
     rule = ('all 2^6 column-switch settings x colour {off,on} x all record streams of <=2 (quick) / <=3 (thorough) items over 9 kinds '
             '(syscalls on a declared and an undeclared thread, NEWTHREAD data/string, EXEC data/string, terminate-pid, sampler '
-            'thread-data, unrelated record) x thread maps {empty, 1 entry, 2 entries, 3 entries whose tids collide with other entries\' pids}, through formatted_kevents and '
+            'thread-data, unrelated record) x thread maps {empty, 1 entry, 2 entries, 3 entries whose tids collide with other entries\' pids, pids 2^31 and 2^32-1}, through formatted_kevents and '
             'formatted_traces (+ one callstack dump through formatted_callstacks, one v3 log dump through formatted_logs); plus dump '
             'SEQUENCES: one parser object formats a first dump (1 item quick / <=2 thorough, any map) and then a second (<=2 items, '
             'any map) - the second dump\'s lines must equal a fresh object\'s. '
